@@ -51,6 +51,10 @@ Oracles (model-free; signatures carry the family):
   uninterrupted-disturbed:<fam>  P1 (exposing state, its emitted states handed to others) differs from P0
   emitted-state-mutated:<fam>    an emitted state object no longer has the contents it had when emitted
   resume-raises:<fam>:<Exc>      building or feeding a resumed pipeline raised where P0 did not
+  resume-mismatch-after-consumer-fault:<fam>
+                                 (cases with "fault": j) a second consumer of the aggregation raises on delivery j after the list sink has
+                                 stored it, the producer catches the exception and carries on — that run is then the uninterrupted run; a
+                                 pipeline seeded with the state it emitted after batch j-1 or j must produce the same remaining results
   state-not-emitted:<fam>        with_state=True was requested but plain results are emitted
   window-transform-drops-state   any of the above in a case whose window object is transformed element-wise, when the same case with
                                  the untransformed window passes (Window.map_partitions / __getitem__ / index lost with_state or start)
@@ -350,6 +354,7 @@ class Pipe:
         self.sdf = DataFrame(example=example_of(case, df))
         node = build(case, self.sdf, start, ws)
         self.L = node.stream.sink_to_list()
+        self.out = node.stream
         self.acc = c11.find_acc(node.stream)
 
     def feed(self, batch):
@@ -367,6 +372,10 @@ class Pipe:
 
 
 # ------------------------------------------------------------------ one case
+
+class ConsumerRejects(Exception):
+    pass
+
 
 def tol_of(case):
     return TOL if (case["agg"] in TOL_AGGS or case["family"] == "ewm") else 0.0
@@ -505,6 +514,46 @@ def observe(case):
                 break
     except Exception as e:
         problem("resume-raises:%s:%s" % (fam, type(e).__name__), "chain of resumed pipelines raised %r" % (e,))
+
+    # ---- a consumer of the aggregation rejects one delivery (after another consumer has stored it) and the producer carries on:
+    #      that run is then "the uninterrupted run", and a pipeline seeded with any state it emitted has to agree with it
+    fj = case.get("fault")
+    if fj is not None and 0 <= fj < n:
+        try:
+            pf = Pipe(case, df, FRESH, ws=ws1)
+            seen = [0]
+
+            def rejecting(e, _seen=seen):
+                _seen[0] += 1
+                if _seen[0] == fj + 1:
+                    raise ConsumerRejects("delivery %d rejected" % (fj + 1))
+            pf.out.sink(rejecting)
+            FR, FS = [], []
+            for j, b in enumerate(batches):
+                try:
+                    st, r = pf.feed(b)
+                    if j == fj:
+                        problem("consumer-fault-swallowed:" + fam, "a consumer of the aggregation raised on delivery %d and sdf.emit returned normally" % (j + 1))
+                except ConsumerRejects:
+                    if len(pf.L) != j + 1:
+                        raise AssertionError("the list sink attached first must have stored delivery %d" % (j + 1))
+                    e = pf.L[-1]
+                    st, r = (e[0], e[1]) if (pf.ws and isinstance(e, tuple) and len(e) == 2) else (pf.acc.state, e)
+                FR.append(canon(r))
+                FS.append(st)
+            for k in sorted({fj, fj + 1} & set(range(1, n))):
+                p2 = Pipe(case, df, FS[k - 1], ws=ws2)
+                for j in range(k, n):
+                    _st, r = p2.feed(batches[j])
+                    cr = canon(r)
+                    if not same(cr, FR[j], tol):
+                        problem("resume-mismatch-after-consumer-fault:" + fam,
+                                "a consumer rejected delivery %d (the producer carried on); resumed from the state emitted after batch %d: result for batch %d "
+                                "is %s, the uninterrupted run delivered %s" % (fj + 1, k, j + 1, short(cr), short(FR[j])),
+                                cut=k, batch=j + 1, expected=FR[j], observed=cr)
+                        break
+        except Exception as e:
+            problem("resume-raises:%s:%s" % (fam, type(e).__name__), "run with a consumer rejecting delivery %d raised %r" % (fj + 1, e))
 
     # ---- the emitted objects must still hold what they held when they were emitted
     for k, st, snap in emitted:
@@ -660,6 +709,8 @@ def check_case(ctx, case, answers=None):
     if case["frame"] == "series" and case["family"] in ("rolling", "window-n", "window-t", "expanding", "ewm"):
         ctx.count("column-selected:" + case.get("select", "before"))
     ctx.count("batches:%d" % len(sizes))
+    if case.get("fault") is not None:
+        ctx.count("consumer-rejects-one-delivery")
     if any(s == 0 for s in sizes):
         ctx.count("with-empty-batch")
     if sizes and sizes[0] == 0:
@@ -872,6 +923,8 @@ def make_case(rng, fam, table=None, sizes=None):
         case["chain"] = list(range(1, nb))                 # rebuilt before every batch
     else:
         case["chain"] = [j for j in range(1, nb) if rng.random() < 0.5]
+    if nb >= 2 and rng.random() < 0.3:
+        case["fault"] = rng.randrange(nb - 1)                 # a consumer rejects this delivery (0-based); later batches exist
     return fix_shape(rng, case)
 
 
@@ -891,6 +944,15 @@ def corpus_case(fam, agg, sizes, table=T7, **kw):
 CORPUS = [
     # the shapes of test_*_with_start_state, at every cut and with empty batches
     corpus_case("reduction", "sum", [0, 2, 0, 3, 2], via="method"),
+    # a consumer of the aggregation rejects one delivery, the producer carries on: emitted state == retained state
+    corpus_case("groupby", "mean", [2, 1, 2, 2], grouper="col", fault=1),
+    corpus_case("rolling", "sum", [2, 1, 2, 2], win="count", W=3, fault=1),
+    corpus_case("window-n", "sum", [2, 1, 2, 2], W=4, fault=2),
+    corpus_case("window-t", "mean", [2, 2, 3], W=3, fault=0),
+    corpus_case("wgroupby-n", "sum", [2, 1, 2, 2], W=4, grouper="col", fault=1),
+    corpus_case("expanding", "sum", [2, 1, 2, 2], fault=1),
+    corpus_case("ewm", "ewm", [2, 1, 2, 2], param="com", pval=[1, 1], fault=1, table={**T7, "x": [1, 3, 2, 1, 4, 1, 1], "y": [2, 0, 1, 2, 3, 3, 1]}),
+    corpus_case("reduction", "mean", [2, 1, 2, 2], via="method", fault=1),
     corpus_case("reduction", "mean", [2, 0, 3, 2], via="method", frame="df"),
     corpus_case("reduction", "mean", [0, 0, 3, 4], via="method"),                       # zero-count state is resumed too
     corpus_case("reduction", "count", [1, 1, 1, 1, 1, 1, 1], via="method", mode="lockstep"),
